@@ -68,3 +68,16 @@ Definition retype_header (value : str) (cur new : option str) : option str :=
   | Some _, None => Some (remove_return_typ value)
   | None, Some n => Some (add_return_typ value n)
   end.
+
+(* (5) find_cst_at_ast: the first CST node whose line window contains the AST node's line and whose kind and name agree *)
+Record cnode := { c_start : Z; c_end : Z; c_kind : str; c_name : option str }.
+Definition opt_str_eqb (a b : option str) : bool :=
+  match a, b with Some x, Some y => str_eqb x y | None, None => true | _, _ => false end.
+Definition cst_matches (lineno : Z) (kind : str) (name : option str) (c : cnode) : bool :=
+  (c_start c <=? lineno)%Z && (lineno <=? c_end c)%Z && str_eqb (c_kind c) kind && opt_str_eqb (c_name c) name.
+Fixpoint find_cst_from (i : nat) (l : list cnode) (lineno : Z) (kind : str) (name : option str) : option nat :=
+  match l with
+  | [] => None
+  | c :: r => if cst_matches lineno kind name c then Some i else find_cst_from (S i) r lineno kind name
+  end.
+Definition find_cst (l : list cnode) (lineno : Z) (kind : str) (name : option str) : option nat := find_cst_from O l lineno kind name.
